@@ -357,6 +357,36 @@ func C05(g *ref.Grammar, mk func() Parser, quote func(string) string, n, nsw int
 	rt.Reach("accept")
 }
 
+// C05Reuse: the tree of a parse on a parser that has already parsed, and printed the tree of,
+// another input (Buffer, Reset, Parse): nothing of the earlier tree may remain.
+func C05Reuse(g *ref.Grammar, mk func() Parser, quote func(string) string, n1, n2, nsw int) {
+	in1 := NewInput("ina", n1, nsw)
+	in2 := NewInput("inb", n2, nsw)
+	p := start(mk, in1, true, -1)
+	if p.Parse(-1) {
+		_ = p.Tree()
+		_ = p.Sprint()
+	}
+	for j, v := range in2.Sw {
+		p.SetSw(j, v)
+	}
+	p.Reset(in2.S)
+	ok := p.Parse(-1)
+	r := ref.Run(g, 0, in2.R, in2.Sw)
+	rt.Assume(!r.Aborted)
+	rt.Assert("reuse/verdict", ok == r.OK)
+	if !ok {
+		rt.Reach("reject")
+		return
+	}
+	want := ref.Tree(r.Toks)
+	rt.Assert("reuse/ast", sameTree(p.Tree(), want))
+	s := p.Sprint()
+	rt.ObserveStr("print", s)
+	rt.Assert("reuse/print", s == expectPrint(want, 0, in2.R, quote))
+	rt.Reach("accept")
+}
+
 // ---- C06: memoisation on/off ----
 
 func C06(g *ref.Grammar, mk func() Parser, n, nsw int) {
